@@ -4,16 +4,25 @@ PROP = {'level': 'proof',
          'body styles (VALUE / ATTRIBUTE lines before and after the includes, a faulty line before / between / after, includes of a missing '
          'file, a duplicated include, blank and comment lines, CRLF, no final newline, include inside a vendor block); thorough: also every '
          'subset of the 16 edges on 4 files (65536 graphs); hand-written cycles, diamonds, chains of 150 and 199 files, over-long lines and '
-         'unclosed blocks in included files; random file systems of 1..5 files.',
+         'unclosed blocks in included files; random file systems of 1..5 files. Every 29th (thorough: 5th) of these file systems once more '
+         'with I/O failures planted (op walkio: per file a reader that fails after the text and/or a first Close that fails, reader '
+         'chunk sizes 1..4096), plus about 180 hand-placed failure cases (read error in root / include / two levels down, mid-line, before '
+         'an unclosed block, at the 64 KiB line limit; Close error at different lines and depths, and where it must not show) and '
+         '150 (thorough: 4000) random ones.',
  'level_text': 'Lean theorems about an executable model of the $INCLUDE walk of dictionary/parser.go over an abstract finite file system with '
                'an open/close event log: the repaired rule terminates without fuel on every finite file system (well-founded measure), a '
                'successful parse implies an acyclic reachable include graph, a reported RecursiveInclude is a real cycle, acyclic graphs '
                '(diamonds, repeated includes) are never reported, every open is followed by a close on all paths, ParseErrors carry a parsed '
-               'file and a 1-based line of it; for the rule as found: divergence on the non-root cycle for every fuel. Model tied to the Go '
+               'file and a 1-based line of it; for the rule as found: divergence on the non-root cycle for every fuel. An additive layer '
+               '(files whose reader fails / whose first Close fails) refines that model when no file fails, and for it: every open is '
+               'followed by a close whatever fails, a read error / Close error is reported exactly as parser.go does and is explained '
+               '(file, 1-based $INCLUDE line, which file failed), no failure is swallowed by a successful parse. Model tied to the Go '
                'parser by a differential run with an in-memory Opener and an oracle written from the property.',
  'level_note': 'Trusted: Lean kernel; the model as mirror of parser.go (see C16); the in-memory opener of the harness with its depth cap of '
                '200 open files (unbounded recursion is observed as DEPTH-EXCEEDED instead of a fatal stack overflow).',
  'trusted': ['in-memory Opener of the harness (event trace, depth cap)', 'the specification-level reader DSpec in RV/Driver/C16.lean (oracle)'],
  'assumptions': ['file names are what File.Name() returns; the abstract file system maps a name to one content (first entry wins)',
                  'include depth below 200 (deeper legal chains are not generated)',
+                 'I/O failures: a reader delivers its text with nil errors and fails on the following Read call (never together with data); '
+                 'a failing Close fails on the first call on a handle; an Opener that fails for an existing file is the missing-file case',
                  '"every cycle is reported" is read as: when the depth-first walk in directive order reaches it; an earlier fault is reported instead']}
